@@ -479,7 +479,7 @@ def r5_codec(P, rep, ctx, rule="C03.R5"):
     writes = sv.call_sites("__f.write(__d)")
     data_w = [(i, c, b) for i, c, b in writes if not (isinstance(b["__d"], ast.Constant) and b["__d"].value == b"\x00")]
     nul_w = [i for i, c, b in writes if isinstance(b["__d"], ast.Constant) and b["__d"].value == b"\x00"]
-    payload = sorted({sv.x_at(i, b["__d"]) for i, c, b in data_w})
+    payload = sorted({norm(MM.canon_strings(sv.xe_at(i, b["__d"]))) for i, c, b in data_w})
     want = "f'{FORMAT_MAGIC_STR}\\n{self._userblock_size}\\n{self.json()}'.encode('utf-8')"
     rep.check(payload == [want], rule, svfi.qual, "writer: MAGIC, newline, size, newline, JSON without indent", svfi.loc(), construct="save format", message=f"IH5UserBlock.save does not write `{{MAGIC}}\\n{{size}}\\n{{self.json()}}` (json without indent => no newline inside): {payload}")
     wd = [i for i, c, b in data_w]
